@@ -92,7 +92,13 @@ func GenChain(seed uint64, pool *Pool) *Plan {
 			kinds = append(kinds, ref.Deactivate)
 		}
 		for _, k := range kinds {
-			st := opStep(r, pool, s, d, k, ref.FNone, true)
+			fault := ref.FNone
+			if k == ref.Recover && r.Chance(1, 4) {
+				// a recover whose delta alone is bad is still a link of the recovery chain: it is accepted with an empty document and
+				// its signed recovery commitment is what the next recover / deactivate must reveal
+				fault = core.Pick(r, []string{ref.FDeltaMissing, ref.FDeltaHash, ref.FDeltaInvalid})
+			}
+			st := opStep(r, pool, s, d, k, fault, true)
 			st.Via = "direct"
 			st.HasFrom, st.HasUntil = false, false
 			if r.Chance(1, 5) {
